@@ -18,7 +18,7 @@ func init() {
 		Prop:   "C17",
 		Run:    run,
 		Replay: replay,
-		Rule: "E1 over (schema x token path): 6 schemas built by the real compiler (presence and non-presence containers, list with typed key, leaves of several types, empty leaf, leaf-list, nested choice/case) x every token path up to the length bound over an alphabet of every node name of the schema, valid and invalid values per type, a foreign name and the empty string, x AllowIncompletePaths (every path is validated with incomplete paths allowed, then strictly, then allowed again, on the same compiled schema); ModelSet.Validate must accept iff a reference walker over the generator's own schema description accepts, and for a rejected path the error must mention the first offending element (or, for an incomplete path, the element it ends on). " +
+		Rule: "E1 over (schema x token path): 7 schemas built by the real compiler (presence and non-presence containers, list with typed key, leaves of several types, empty leaf, leaf-list, nested choice/case, leaves with defaults of their own and from a typedef, a mandatory leaf) x every token path up to the length bound over an alphabet of every node name of the schema, valid and invalid values per type, a foreign name and the empty string, x AllowIncompletePaths (every path is validated with incomplete paths allowed, then strictly, then allowed again, on the same compiled schema); ModelSet.Validate must accept iff a reference walker over the generator's own schema description accepts, and for a rejected path the error must mention the first offending element (or, for an incomplete path, the element it ends on). " +
 			"Subtrees below a prefix both sides reject for its last token are not extended (the walk is left-to-right and prefix-determined; pruned subtrees are counted). Non-trivial = the path has >= 2 tokens.",
 		Bound: map[string]string{
 			"quick":    "paths of <= 5 tokens (no pruning below 4 tokens)",
@@ -35,6 +35,10 @@ type sn struct {
 	Type     string `json:"type,omitempty"` // string uint8 boolean empty enum
 	Key      string `json:"key,omitempty"`
 	Kids     []*sn  `json:"kids,omitempty"`
+	// statements that must not influence path validation
+	Default   string `json:"default,omitempty"`
+	Mandatory bool   `json:"mandatory,omitempty"`
+	Typedef   bool   `json:"typedef,omitempty"` // the type (and default) come from a typedef
 }
 
 func (n *sn) yang() string {
@@ -44,9 +48,20 @@ func (n *sn) yang() string {
 		t := n.Type
 		if t == "enum" {
 			t = "enumeration { enum red; enum green; }"
-			fmt.Fprintf(&b, "%s %s { type %s }", n.Kind, n.Name, t)
 		} else {
-			fmt.Fprintf(&b, "%s %s { type %s; }", n.Kind, n.Name, t)
+			t += ";"
+		}
+		extra := ""
+		if n.Default != "" {
+			extra += fmt.Sprintf(" default %q;", n.Default)
+		}
+		if n.Mandatory {
+			extra += " mandatory true;"
+		}
+		if n.Typedef {
+			fmt.Fprintf(&b, "typedef td-%s { type %s%s } %s %s { type td-%s; }", n.Name, t, extra, n.Kind, n.Name, n.Name)
+		} else {
+			fmt.Fprintf(&b, "%s %s { type %s%s }", n.Kind, n.Name, t, extra)
 		}
 		return b.String()
 	}
@@ -178,6 +193,9 @@ func schemas() [][]*sn {
 		{{Kind: "leaf-list", Name: "ll", Type: "uint8"}, {Kind: "leaf", Name: "top", Type: "enum"}, {Kind: "container", Name: "c", Kids: []*sn{{Kind: "leaf-list", Name: "names", Type: "string"}}}},
 		{{Kind: "list", Name: "outer", Key: "name", Kids: []*sn{lf("name", "string"), {Kind: "list", Name: "inner", Key: "id", Kids: []*sn{lf("id", "enum"), lf("val", "uint8")}}, {Kind: "container", Name: "pc", Presence: true}}}},
 		{{Kind: "container", Name: "a", Kids: []*sn{{Kind: "container", Name: "b", Kids: []*sn{{Kind: "container", Name: "c", Presence: true, Kids: []*sn{lf("e", "empty")}}, lf("red", "string")}}}}},
+		// defaults (own and from a typedef) whose values are tokens of the alphabet, a mandatory leaf
+		{{Kind: "container", Name: "dc", Kids: []*sn{{Kind: "leaf", Name: "d7", Type: "uint8", Default: "7"}, {Kind: "leaf", Name: "dg", Type: "enum", Default: "green"}, {Kind: "leaf", Name: "tdl", Type: "boolean", Default: "true", Typedef: true}, {Kind: "leaf", Name: "m", Type: "uint8", Mandatory: true}}},
+			{Kind: "list", Name: "dl", Key: "k", Kids: []*sn{lf("k", "string"), {Kind: "leaf", Name: "dx", Type: "string", Default: "x"}}}},
 	}
 }
 
